@@ -176,9 +176,14 @@ def gen_case(rng, index, tier):
             ops.append(dict(op='raise_inside', n=rng.choice([1, 2, 3, 5, 8, 13, 21, 34, 55]), k=rng.randrange(nsets)))
         else:
             ops.append(dict(op='gc'))
-    if rng.random() < 0.12 and cfg['compile_procs'] > 1 and not cfg['stats']:
+    if rng.random() < 0.4 and cfg['compile_procs'] > 1 and not cfg['stats']:
         from . import c16
-        ops.insert(rng.randrange(len(ops) + 1), dict(op='call_parallel', k=rng.randrange(nsets), nprocs=rng.choice([2, 3]), sched=c16.gen_sched(rng)))
+        op = dict(op='call_parallel', k=rng.randrange(nsets), nprocs=rng.choice([2, 3]), sched=c16.gen_sched(rng))
+        if rng.random() < 0.5:
+            # the parallel call itself fails (a worker is killed, a fork or a shared allocation fails) - possibly the FIRST run; later calls must be unaffected
+            op['faults'] = [rng.choice([dict(kind='KILL', proc=rng.randrange(1, op['nprocs']), ykind='ANY', n=rng.choice([1, 2, 3, 4, 6, 9, 14])),
+                                        dict(kind='FORK_FAIL', proc=0, n=rng.randint(1, op['nprocs'] - 1)), dict(kind='ALLOC_FAIL', proc=0, n=rng.randint(1, 3))])]
+        ops.insert(rng.choice([0, 0, rng.randrange(len(ops) + 1)]), op)
     ops.append(dict(op='call', k=rng.randrange(nsets), how='same'))
     return dict(kind='compiled', prog=prog, cfg=cfg, nsets=nsets, ops=ops, aseed=rng.randrange(1 << 30))
 
@@ -490,7 +495,7 @@ def run_compiled(case, skip_first_run_views=False):
             k = op['k']
             a = pooldicts[k]
             before = {n: numpy.array(v, copy=True) for n, v in a.items()}
-            sim = procsim.Sim(op['sched'], granularity='sync')
+            sim = procsim.Sim(op['sched'], faults=op.get('faults', ()), granularity='sync')
             try:
                 with procsim.patched_parallel():
                     with sim, parallel.maxprocs(op['nprocs']):
@@ -502,8 +507,16 @@ def run_compiled(case, skip_first_run_views=False):
                         except Exception as e:
                             outcome = f'raised {type(e).__name__}: {e}'[:200]
                 nproc = int(sim.hdr[procsim.H_NSLOT])
+                fault_fired = any(sim.fired_faults())
             finally:
                 sim.close()
+            if outcome != 'returned' and fault_fired:
+                # the failed call is the "crash" of this history (a deadlock after a kill inside a critical section is the C16 known finding, judged there);
+                # what C03 requires is that the function is unharmed
+                log.append(('call_parallel', k, nproc, 'failed-after-injected-fault', 'first_run' if ncalls == 0 else 'rerun'))
+                events_between += 1
+                probe('parallel_call_failed_by_fault_first_run' if ncalls == 0 else 'parallel_call_failed_by_fault_rerun')
+                continue
             if outcome != 'returned':
                 return finish(('P-parallel-call-failed', f'parallel call #{ncalls}: {outcome}'), log, probes, nontrivial, case)
             ncalls += 1
@@ -836,6 +849,8 @@ def shrink_candidates(case):
                 for v in shrink.int_reductions(c['prog'][key], 1):
                     yield shrink.with_key(c, ['prog', key], v)
         for i, op in enumerate(ops):
+            if op.get('faults'):
+                yield shrink.with_key(c, ['ops', i, 'faults'], [])
             if op.get('how') not in (None, 'same'):
                 yield shrink.with_key(c, ['ops', i, 'how'], 'same')
             if op.get('k'):
